@@ -162,7 +162,75 @@ End Enum.
 
 (* ------------------------------------------------------------------------
    Meaning of the dyadic arithmetic in Q. *)
+From Coq Require Import Qabs Lqa Field.
 Local Open Scope Q_scope.
 
-Lemma pow2_pos e : (0 < 2 ^ e)%Z \/ (e < 0)%Z.
-Proof. destruct (Z_lt_le_dec e 0); [right; lia|left; apply Z.pow_pos_nonneg; lia]. Qed.
+Lemma injZ_pos z : (0 < z)%Z -> 0 < inject_Z z.
+Proof. intros H. unfold Qlt, inject_Z. simpl. lia. Qed.
+
+Lemma dclose_sound k m e g tgt :
+  (0 <= e)%Z -> (0 <= k)%Z -> dclose k (m, e) g tgt = true ->
+  Qabs (dy2Q (m, e) * inject_Z g - inject_Z tgt) <= 1 / inject_Z (2 ^ k).
+Proof.
+  intros He Hk H. unfold dclose in H. apply Z.leb_le in H.
+  unfold dy2Q. simpl fst. simpl snd.
+  set (P := (2 ^ e)%Z) in *. set (K := (2 ^ k)%Z) in *.
+  assert (HP : (0 < P)%Z) by (apply Z.pow_pos_nonneg; lia).
+  assert (HK : (0 < K)%Z) by (apply Z.pow_pos_nonneg; lia).
+  pose proof (injZ_pos P HP) as HPq. pose proof (injZ_pos K HK) as HKq.
+  set (D := (m * g - tgt * P)%Z) in *.
+  assert (E : inject_Z m / inject_Z P * inject_Z g - inject_Z tgt == inject_Z D / inject_Z P).
+  { unfold D, Z.sub. rewrite inject_Z_plus, inject_Z_opp, !inject_Z_mult. field. lra. }
+  rewrite E. apply Qabs_Qle_condition. split.
+  - apply Qle_shift_div_l; [exact HPq|].
+    setoid_replace (- (1 / inject_Z K) * inject_Z P) with ((- inject_Z P) / inject_Z K) by (field; lra).
+    apply Qle_shift_div_r; [exact HKq|].
+    rewrite <- inject_Z_opp, <- inject_Z_mult. rewrite <- Zle_Qle. lia.
+  - apply Qle_shift_div_r; [exact HPq|].
+    setoid_replace (1 / inject_Z K * inject_Z P) with (inject_Z P / inject_Z K) by (field; lra).
+    apply Qle_shift_div_l; [exact HKq|].
+    rewrite <- inject_Z_mult. rewrite <- Zle_Qle. lia.
+Qed.
+
+Definition dwf (x : dy) : Prop := (0 <= snd x)%Z.
+
+Lemma injZ_pow2_nz e : (0 <= e)%Z -> ~ inject_Z (2 ^ e) == 0.
+Proof.
+  intros He H. assert (0 < 2 ^ e)%Z by (apply Z.pow_pos_nonneg; lia).
+  unfold Qeq, inject_Z in H. simpl in H. lia.
+Qed.
+
+Lemma dmul_sound x y : dwf x -> dwf y ->
+  dwf (dmul x y) /\ dy2Q (dmul x y) == dy2Q x * dy2Q y.
+Proof.
+  destruct x as [m1 e1], y as [m2 e2]. unfold dwf, dy2Q, dmul. simpl. intros H1 H2.
+  split; [lia|].
+  rewrite Z.pow_add_r by lia. rewrite !inject_Z_mult.
+  field. split; apply injZ_pow2_nz; assumption.
+Qed.
+
+Lemma dadd_sound x y : dwf x -> dwf y ->
+  dwf (dadd x y) /\ dy2Q (dadd x y) == dy2Q x + dy2Q y.
+Proof.
+  destruct x as [m1 e1], y as [m2 e2]. unfold dwf, dy2Q, dadd. simpl. intros H1 H2.
+  destruct (Z.leb_spec e1 e2) as [L|L]; simpl.
+  - split; [lia|].
+    rewrite Z.shiftl_mul_pow2 by lia.
+    replace (2 ^ e2)%Z with (2 ^ e1 * 2 ^ (e2 - e1))%Z
+      by (rewrite <- Z.pow_add_r by lia; f_equal; lia).
+    rewrite inject_Z_plus, !inject_Z_mult.
+    field. split; apply injZ_pow2_nz; lia.
+  - split; [lia|].
+    rewrite Z.shiftl_mul_pow2 by lia.
+    replace (2 ^ e1)%Z with (2 ^ e2 * 2 ^ (e1 - e2))%Z
+      by (rewrite <- Z.pow_add_r by lia; f_equal; lia).
+    rewrite inject_Z_plus, !inject_Z_mult.
+    field. split; apply injZ_pow2_nz; lia.
+Qed.
+
+Lemma q2dy_sound q : q_is_dyadic q = true -> dwf (q2dy q) /\ dy2Q (q2dy q) == q.
+Proof.
+  destruct q as [n d]. unfold q_is_dyadic, q2dy, dwf, dy2Q. cbn [Qnum Qden fst snd]. intros H.
+  apply Z.eqb_eq in H. split; [apply Z.log2_nonneg|].
+  rewrite <- H. symmetry. apply Qmake_Qdiv.
+Qed.
